@@ -5,6 +5,7 @@ import Driver.Common
 import Driver.C06
 import MocVerif.Model.ST
 import MocVerif.Model.Merge2D
+import MocVerif.Model.Consistent2D
 
 namespace Drv
 open Moc
@@ -85,6 +86,13 @@ def stepST (toks : List String) : Option String :=
       let r := Merge2D.merge2 op fa fb
       pure (if r.isEmpty then "_" else ";".intercalate (r.map fun e => s!"{showRng e.1}@{showRngs e.2}"))
     | _, _ => pure "not-flat"
+  | ["st_mkc", a] => do
+    let a ← parseST a
+    match toFlat a with
+    | some fa =>
+      let r := Consistent2D.makeConsistent fa
+      pure (if r.isEmpty then "_" else ";".intercalate (r.map fun e => s!"{showRng e.1}@{showRngs e.2}"))
+    | none => pure "not-flat"
   | ["st_tfold_r", tm, a] => do
     let tm ← parseRngs tm; let a ← parseST a
     match toFlat a with
